@@ -46,11 +46,9 @@ theorem renderedLine_cols (inner : Bytes) (cw : List Nat) (parts : List WidthStr
 
 def rlFinish (L I R : Bytes) (cols : List (List Bytes)) : Except Stop Bytes :=
   let fields : List Bytes := (if L != [] then [L] else []) ++ cols.flatten
-  if R != [] && I != [] then
-    (if fields.length = 0 then .error (.panic "emit.fields[len-1]") else .ok (joinSP (fields.dropLast ++ [R]) ++ [LF]))
+  if R != [] && I != [] then .ok (joinSP (fields.dropLast ++ [R]) ++ [LF])
   else if R != [] then .ok (joinSP (fields ++ [R]) ++ [LF])
-  else if I != [] then
-    (if fields.length = 0 then .error (.panic "emit.fields[:len-1]") else .ok (joinSP fields.dropLast ++ [LF]))
+  else if I != [] then .ok (joinSP fields.dropLast ++ [LF])
   else .ok (joinSP fields ++ [LF])
 
 theorem renderedLine_eq (L I R : Bytes) (cw : List Nat) (parts : List WidthString) (aligns : List Nat) :
@@ -62,9 +60,9 @@ theorem renderedLine_eq (L I R : Bytes) (cw : List Nat) (parts : List WidthStrin
         pure (if I != [] then [s, I] else [s]))) >>= rlFinish L I R := by
   unfold renderedLine rlFinish
   simp only []
-  congr 1
-  funext cols
-  repeat (first | rfl | split)
+  first
+    | rfl
+    | (congr 1; first | done | (funext cols; repeat (first | rfl | split)))
 
 theorem flatten_pairs_dropLast (I : Bytes) (bs : List Bytes) :
     ((bs.map (fun b => [b, I])).flatten).dropLast = bs.intersperse I := by
